@@ -7,6 +7,7 @@ import (
 	"gtsverif/engines/effects"
 	"gtsverif/engines/integrity"
 	"gtsverif/engines/orders"
+	"gtsverif/engines/siblings"
 	"gtsverif/engines/tables"
 )
 
@@ -14,10 +15,17 @@ func init() {
 	register("C18", false, func(p *core.Prog, r *core.Report, tier string) { tables.C18(p, r) })
 	register("C01", false, func(p *core.Prog, r *core.Report, tier string) { tables.C01(p, r) })
 	register("C16", false, func(p *core.Prog, r *core.Report, tier string) { tables.C16(p, r) })
-	register("C02", false, func(p *core.Prog, r *core.Report, tier string) { conserve.C02(p, r) })
+	register("C02", false, func(p *core.Prog, r *core.Report, tier string) {
+		conserve.C02(p, r)
+		siblings.Shift(p, r)
+		siblings.Expand(p, r)
+		tables.OriginLen(p, r)
+	})
 	register("C03", false, func(p *core.Prog, r *core.Report, tier string) {
 		conserve.C03(p, r)
+		conserve.Window(p, r)
 		orders.Intervals(p, r)
+		siblings.Expand(p, r)
 	})
 	register("C09", false, func(p *core.Prog, r *core.Report, tier string) {
 		orders.SegmentOrder(p, r)
@@ -28,11 +36,23 @@ func init() {
 	register("C19", false, func(p *core.Prog, r *core.Report, tier string) {
 		orders.Compare3(p, r)
 		conserve.FilterRule(p, r)
+		conserve.QualifierRules(p, r)
 		r.NotDecided = append(r.NotDecided, "selector grammar and regexp semantics", "the tie-break and the recursive cases of LocationLess", "boolean-algebra laws of And/Or/Not", "the binary search of FeatureSlice.Insert")
 	})
-	register("C04", false, func(p *core.Prog, r *core.Report, tier string) { conserve.C04(p, r) })
-	register("C05", false, func(p *core.Prog, r *core.Report, tier string) { conserve.C05(p, r) })
-	register("C15", false, func(p *core.Prog, r *core.Report, tier string) { conserve.C15(p, r) })
+	register("C04", false, func(p *core.Prog, r *core.Report, tier string) {
+		conserve.C04(p, r)
+		conserve.ModNormalise(p, r)
+		siblings.Normalize(p, r)
+	})
+	register("C05", false, func(p *core.Prog, r *core.Report, tier string) {
+		conserve.C05(p, r)
+		siblings.Reverse(p, r)
+		tables.Alphabet(p, r)
+	})
+	register("C15", false, func(p *core.Prog, r *core.Report, tier string) {
+		conserve.C15(p, r)
+		orders.SegmentOrder(p, r)
+	})
 	register("C11", true, func(p *core.Prog, r *core.Report, tier string) { effects.C11(p, r) })
 	register("C13", false, func(p *core.Prog, r *core.Report, tier string) { integrity.C13(p, r) })
 	register("C14", false, func(p *core.Prog, r *core.Report, tier string) { cachekey.C14(p, r) })
